@@ -44,6 +44,7 @@ theorem run_induction (c : Cfg) (P : State → Prop) (h0 : P {})
     (hexpire : ∀ s d, P s → s.deadline = some d → s.runs ≠ [] → P (expire c s d))
     (hnow : ∀ s t, P s → P { s with now := max s.now t })
     (haccept : ∀ s x, P s → s.stopped = false → P (accept s x))
+    (hlate : ∀ s x, P s → s.stopped = true → P (acceptLate s x))
     (hstop : ∀ s, P s → P (doStop c s)) :
     ∀ ops, P (run c ops) := by
   have hadv : ∀ bound fuel s, P s → P (advance c bound fuel s) := by
@@ -85,12 +86,17 @@ theorem run_induction (c : Cfg) (P : State → Prop) (h0 : P {})
         · exact h
         · exact hadvTo _ _ h
       show P (if (if batch = true then s else advanceTo c (some (t, !pre)) s).stopped = true
-        then _ else accept _ x)
+        then acceptLate _ x else accept _ x)
       generalize (if batch = true then s else advanceTo c (some (t, !pre)) s) = s1 at h1
       by_cases hs : s1.stopped = true
-      · simp only [hs, if_true]; exact h1
+      · simp only [hs, if_true]; exact hlate _ _ h1 hs
       · simp only [hs]; exact haccept _ _ h1 (by simpa using hs)
-    | stop t pre => exact hstop _ (hadvTo _ _ h)
+    | stop t pre batch =>
+      refine hstop _ ?_
+      show P (if batch = true then s else advanceTo c (some (t, !pre)) s)
+      split
+      · exact h
+      · exact hadvTo _ _ h
     | finish => exact hadvTo none _ h
   intro ops
   suffices ∀ s, P s → P (ops.foldl (step c) s) from this _ h0
@@ -171,6 +177,20 @@ theorem startAll_output (s : State) (q : List Job) : (startAll s q).output = s.o
   induction q generalizing s with
   | nil => simp [startAll]
   | cons j q ih => simp [startAll, ih]; omega
+
+/-! ### a put behind the sentinel -/
+
+@[simp] theorem acceptLate_runs (s : State) (x : Item) : (acceptLate s x).runs = s.runs := rfl
+@[simp] theorem acceptLate_queue (s : State) (x : Item) : (acceptLate s x).queue = s.queue := rfl
+@[simp] theorem acceptLate_output (s : State) (x : Item) : (acceptLate s x).output = s.output := rfl
+@[simp] theorem acceptLate_now (s : State) (x : Item) : (acceptLate s x).now = s.now := rfl
+@[simp] theorem acceptLate_stopped (s : State) (x : Item) : (acceptLate s x).stopped = s.stopped := rfl
+@[simp] theorem acceptLate_sdPending (s : State) (x : Item) : (acceptLate s x).sdPending = s.sdPending := rfl
+@[simp] theorem acceptLate_nacc (s : State) (x : Item) : (acceptLate s x).nacc = s.nacc := rfl
+@[simp] theorem acceptLate_deadline (s : State) (x : Item) : (acceptLate s x).deadline = s.deadline := rfl
+@[simp] theorem acceptLate_stopAt (s : State) (x : Item) : (acceptLate s x).stopAt = s.stopAt := rfl
+@[simp] theorem acceptLate_log (s : State) (x : Item) :
+    (acceptLate s x).log = (s.now, Ev.late ⟨s.nacc + s.late.length, x⟩) :: s.log := rfl
 
 /-! ### stop_timeout expiry -/
 
@@ -385,7 +405,7 @@ theorem expire_countInv (c : Cfg) (s : State) (d : Nat) (h : CountInv c s) : Cou
 
 theorem run_countInv (c : Cfg) (ops : List Op) : CountInv c (run c ops) :=
   run_induction c (CountInv c) (by simp [CountInv]) (settle_countInv c) (fire_countInv c)
-    (fun s d h _ _ => expire_countInv c s d h) (fun _ _ h => h) (fun s x h _ => accept_countInv c s x h) (doStop_countInv c) ops
+    (fun s d h _ _ => expire_countInv c s d h) (fun _ _ h => h) (fun s x h _ => accept_countInv c s x h) (fun s x h _ => by simpa [CountInv] using h) (doStop_countInv c) ops
 
 
 /-! ### termination: every internal step lowers `measure`; `finish` reaches the idle state -/
@@ -647,7 +667,7 @@ theorem expire_sdInv (c : Cfg) (s : State) (d : Nat) (h : SdInv c s) : SdInv c (
 
 theorem run_sdInv (c : Cfg) (ops : List Op) : SdInv c (run c ops) :=
   run_induction c (SdInv c) (by simp [SdInv]) (settle_sdInv c) (fire_sdInv c)
-    (fun s d h _ _ => expire_sdInv c s d h) (fun _ _ h => h) (fun s x h _ => by simpa [SdInv, accept] using h) (doStop_sdInv c) ops
+    (fun s d h _ _ => expire_sdInv c s d h) (fun _ _ h => h) (fun s x h _ => by simpa [SdInv, accept] using h) (fun s x h _ => by simpa [SdInv] using h) (doStop_sdInv c) ops
 
 theorem run_snoc (c : Cfg) (ops : List Op) (op : Op) : run c (ops ++ [op]) = step c (run c ops) op := by
   simp [run, List.foldl_append]
@@ -853,6 +873,7 @@ theorem run_balanced (c : Cfg) (ops : List Op) : Balanced (run c ops) := by
     (fun s d h _ _ => ⟨expire_balanced c s d h.1, expire_sdInv c s d h.2⟩)
     (fun _ _ h => h)
     (fun s x h _ => ⟨accept_balanced s x h.1, by simpa [SdInv, accept] using h.2⟩)
+    (fun s x h _ => ⟨by simpa [Balanced, pendJobs, evPut, evRes] using h.1, by simpa [SdInv] using h.2⟩)
     (fun s h => by
       refine ⟨?_, doStop_sdInv c s h.2⟩
       cases hst : s.stopped with
@@ -932,6 +953,7 @@ theorem run_uniq (c : Cfg) (ops : List Op) : UniqInv (run c ops) := by
   · intro s d h _ _; simpa [UniqInv, putJobs_expire] using h
   · intro s t h; exact h
   · intro s x h _; exact uniq_add s _ x h (by simp [accept, evPut]) rfl
+  · intro s x h _; simpa [UniqInv, evPut] using h
   · intro s h
     unfold doStop
     split
@@ -999,6 +1021,7 @@ theorem run_fifo (c : Cfg) (ops : List Op) : Fifo c (run c ops) := by
     rw [filterMap_expireNew evStart (fun _ => rfl) (fun _ => rfl) rfl]; rfl
   · intro s t h; exact h
   · intro s x h _ hm; have := h hm; simp [accept, evPut, evStart, this]
+  · intro s x h _ hm; have := h hm; simpa [evPut, evStart] using this
   · intro s h hm
     have hne : c.mode ≠ Mode.start := by rw [hm]; simp
     unfold doStop
@@ -1294,6 +1317,9 @@ theorem run_cancInv (c : Cfg) (ops : List Op) : CancInv (run c ops) := by
     exact ⟨qInv_mono (s := s) rfl (fun r' hr' => ⟨r', hr', rfl⟩) (Nat.le_refl _) (Nat.le_max_left _ _)
       (fun e he => he) hQ, hsd, hc⟩
   · intro s x h _; exact accept_cancInv s x h
+  · intro s x ⟨hQ, hsd, hc⟩ _
+    exact ⟨qInv_mono (s := s) rfl (fun r' hr' => ⟨r', hr', rfl⟩) (Nat.le_refl _) (Nat.le_refl _)
+      (fun e he => by simp [he]) hQ, hsd, by simpa using cancOK_cons_other (t := s.now) hc rfl⟩
   · exact doStop_cancInv c
 
 
@@ -1494,6 +1520,18 @@ theorem fire_gInv (c : Cfg) (s : State) (t : Nat) (h : GInv c s) : GInv c (fire 
     · simp only [countDown_log]
       exact sepOK_cons_other rfl (h.2 hm)
 
+theorem gInv_inert (c : Cfg) (s s' : State) (e : Ev) (ho : evOver e = false) (hs : evStart e = none)
+    (hlog : s'.log = (s.now, e) :: s.log)
+    (hnow : s'.now = s.now) (hruns : s'.runs = s.runs) (h : GInv c s) : GInv c s' := by
+  refine ⟨g2_step (s := s) ?_ (by omega) (fun r hr _ => Or.inl (by rw [hruns]; exact hr)) h.1, fun hm => ?_⟩
+  · intro t1 e1 hm ho1
+    rw [hlog] at hm
+    simp at hm
+    rcases hm with ⟨_, rfl⟩ | hm
+    · rw [ho] at ho1; cases ho1
+    · exact Or.inl hm
+  · rw [hlog]; exact sepOK_cons_other hs (h.2 hm)
+
 theorem gInv_put (c : Cfg) (s s' : State) (j : Job) (hlog : s'.log = (s.now, Ev.put j) :: s.log)
     (hnow : s'.now = s.now) (hruns : s'.runs = s.runs) (h : GInv c s) : GInv c s' := by
   refine ⟨g2_step (s := s) ?_ (by omega) (fun r hr _ => Or.inl (by rw [hruns]; exact hr)) h.1, fun hm => ?_⟩
@@ -1544,6 +1582,7 @@ theorem run_gInv (c : Cfg) (ops : List Op) : GInv c (run c ops) := by
   · intro s t h
     exact ⟨g2_step (s := s) (fun t1 e hm _ => Or.inl hm) (Nat.le_max_left _ _) (fun r hr _ => Or.inl hr) h.1, h.2⟩
   · intro s x h _; exact gInv_put c s _ ⟨s.nacc, x⟩ rfl rfl rfl h
+  · intro s x h _; exact gInv_inert c s _ _ rfl rfl rfl rfl rfl h
   · intro s h
     unfold doStop
     split
@@ -1650,6 +1689,7 @@ theorem run_noCancel (c : Cfg) (ops : List Op) : NoCancel c (run c ops) := by
   · exact fun s d h _ _ => expire_noCancel c s d h
   · intro s t h; exact h
   · intro s x h _; exact noCancel_ext (s := s) ⟨[_], rfl, by simp [evCancel]⟩ h
+  · intro s x h _; exact noCancel_ext (s := s) ⟨[_], rfl, by simp [evCancel]⟩ h
   · intro s h
     unfold doStop
     split
@@ -1669,6 +1709,7 @@ theorem run_induction_quiet (c : Cfg) (P : State → Prop) (h0 : P {})
     (hexpire : ∀ s d, P s → Quiet c s → P (expire c s d))
     (hnow : ∀ s t, P s → Quiet c s → P { s with now := max s.now t })
     (haccept : ∀ s x, P s → s.stopped = false → P (accept s x))
+    (hlate : ∀ s x, P s → s.stopped = true → P (acceptLate s x))
     (hstop : ∀ s, P s → P (doStop c s)) :
     ∀ ops, P (run c ops) := by
   have hadv : ∀ bound fuel s, P s → Quiet c s → P (advance c bound fuel s) := by
@@ -1704,12 +1745,17 @@ theorem run_induction_quiet (c : Cfg) (P : State → Prop) (h0 : P {})
         · exact h
         · exact hadvTo _ _ h
       show P (if (if batch = true then s else advanceTo c (some (t, !pre)) s).stopped = true
-        then _ else accept _ x)
+        then acceptLate _ x else accept _ x)
       generalize (if batch = true then s else advanceTo c (some (t, !pre)) s) = s1 at h1
       by_cases hs : s1.stopped = true
-      · simp only [hs, if_true]; exact h1
+      · simp only [hs, if_true]; exact hlate _ _ h1 hs
       · simp only [hs]; exact haccept _ _ h1 (by simpa using hs)
-    | stop t pre => exact hstop _ (hadvTo _ _ h)
+    | stop t pre batch =>
+      refine hstop _ ?_
+      show P (if batch = true then s else advanceTo c (some (t, !pre)) s)
+      split
+      · exact h
+      · exact hadvTo _ _ h
     | finish => exact hadvTo none _ h
   intro ops
   suffices ∀ s, P s → P (ops.foldl (step c) s) from this _ h0
@@ -1842,6 +1888,12 @@ theorem run_startAt (c : Cfg) (ops : List Op) : StartAt c (run c ops) := by
       · left; simp [accept, hjq, ht]
       · right; left; simp [accept, hs]
       · rw [hst] at h1; cases h1
+  · intro s x h _ hm t' j hput
+    simp at hput
+    rcases h hm t' j hput with h1 | h2 | h3
+    · exact Or.inl (by simpa using h1)
+    · exact Or.inr (Or.inl (by simp [h2]))
+    · exact Or.inr (Or.inr (by simpa using h3))
   · intro s h hm t' j hput
     unfold doStop at hput ⊢
     split at hput
@@ -1871,6 +1923,7 @@ theorem run_startAt (c : Cfg) (ops : List Op) : StartAt c (run c ops) := by
 
 def evJob : Ev → Option Job
   | .put _ => none
+  | .late _ => none
   | .out _ => none
   | .timeout => none
   | .start j => some j
@@ -2109,6 +2162,12 @@ theorem run_sdLast (c : Cfg) (ops : List Op) : SdLast c (run c ops) := by
       · exact Or.inr (sdStarted_ext (s := s) rfl rfl (fun r' hr' => ⟨r', hr', rfl⟩) ⟨[], rfl, by simp⟩ hs)⟩)
     (fun s x h hns => ⟨by simpa [SdInv, accept] using h.1, by
       intro hst; simp [accept, hns] at hst⟩)
+    (fun s x h hst => ⟨by simpa [SdInv] using h.1, by
+      intro _ d hd
+      rcases h.2 hst d hd with hw | hs
+      · exact Or.inl (sdWaiting_ext (s := s) rfl rfl hw)
+      · exact Or.inr (sdStarted_ext (s := s) rfl rfl (fun r' hr' => ⟨r', hr', rfl⟩)
+          ⟨[_], rfl, by simp [evJob]⟩ hs)⟩)
     (fun s h => ⟨doStop_sdInv c s h.1, by
       unfold doStop
       split
@@ -2249,6 +2308,10 @@ theorem run_kindOK (c : Cfg) (ops : List Op) : KindOK (run c ops).log := by
   · exact fun s d h _ _ => expire_kindOK c s d h
   · intro s t h; exact h
   · intro s x h _; exact put_kindOK _ _ h
+  · intro s x h _
+    have : (acceptLate s x).log = [(s.now, Ev.late ⟨s.nacc + s.late.length, x⟩)] ++ s.log := rfl
+    rw [this]; apply kindOK_append h
+    intro y hy; simp at hy; rw [hy]; simp [kindWitness]
   · intro s h
     unfold doStop
     split
@@ -2437,6 +2500,9 @@ theorem run_tInv (c : Cfg) (ops : List Op) : TInv c (run c ops) := by
   · intro s x h _
     exact tInv_frame (s := s) (frame_of_append [_] rfl rfl rfl (Nat.le_refl _) rfl (by simp)
       (fun hr => Or.inl hr)) h
+  · intro s x h _
+    exact tInv_frame (s := s) (frame_of_append [_] rfl rfl rfl (Nat.le_refl _) rfl (by simp)
+      (fun hr => Or.inl hr)) h
   · intro s h
     unfold doStop
     split
@@ -2462,5 +2528,226 @@ theorem run_tInv (c : Cfg) (ops : List Op) : TInv c (run c ops) := by
           intro t hm; simp at hm; exact hnone t hm
         · refine key _ ?_ rfl
           intro t hm; simp [accept] at hm; exact hnone t hm
+
+/-! ### puts behind the sentinel are never served -/
+
+def evLate : Ev → Option Job
+  | .late j => some j
+  | _ => none
+
+def lateJobs (log : List (Nat × Ev)) : List Job := log.filterMap (fun e => evLate e.2)
+
+@[simp] theorem lateJobs_cons (t : Nat) (e : Ev) (l : List (Nat × Ev)) :
+    lateJobs ((t, e) :: l) = (evLate e).toList ++ lateJobs l := by
+  simp only [lateJobs, List.filterMap_cons]; cases evLate e <;> simp
+
+theorem mem_lateJobs {log : List (Nat × Ev)} {t : Nat} {j : Job} (h : (t, Ev.late j) ∈ log) : j ∈ lateJobs log := by
+  simp only [lateJobs, List.mem_filterMap]
+  exact ⟨(t, .late j), h, rfl⟩
+
+theorem mem_startJobs {log : List (Nat × Ev)} {t : Nat} {j : Job} (h : (t, Ev.start j) ∈ log) : j ∈ startJobs log := by
+  simp only [startJobs, List.mem_filterMap]
+  exact ⟨(t, .start j), h, rfl⟩
+
+theorem discards_late (s : State) (j : Job) (q : List Job) : lateJobs (discards s j q).log = lateJobs s.log := by
+  induction q generalizing s j with
+  | nil => rfl
+  | cons k q ih => simp [discards, ih, evLate]
+
+theorem discards_start (s : State) (j : Job) (q : List Job) : startJobs (discards s j q).log = startJobs s.log := by
+  induction q generalizing s j with
+  | nil => rfl
+  | cons k q ih => simp [discards, ih, evStart]
+
+theorem startAll_late (s : State) (q : List Job) : lateJobs (startAll s q).log = lateJobs s.log := by
+  induction q generalizing s with
+  | nil => rfl
+  | cons j q ih => simp [startAll, ih, evLate]
+
+theorem startAll_start (s : State) (q : List Job) :
+    startJobs (startAll s q).log = q.reverse ++ startJobs s.log := by
+  induction q generalizing s with
+  | nil => rfl
+  | cons j q ih => simp [startAll, ih, evStart]
+
+theorem settle_late (c : Cfg) (s : State) : lateJobs (settle c s).log = lateJobs s.log := by
+  apply settle_cases c s (fun s' => lateJobs s'.log = lateJobs s.log)
+  · rfl
+  · intros; simp [evLate]
+  · intros; simp [evLate, discards_late]
+  · intros; simp [cancelCur, evLate]
+  · intro _
+    unfold startStopData
+    split
+    · split
+      · simp [evLate, startAll_late]
+      · simp [startAll_late]
+    · simp [startAll_late]
+
+theorem fire_late (c : Cfg) (s : State) (t : Nat) : lateJobs (fire c s t).log = lateJobs s.log := by
+  apply fire_cases c s t (fun s' => lateJobs s'.log = lateJobs s.log)
+  · intro _; rfl
+  · intro a r b _ _ _ _; cases hf : r.job.data.fail <;> simp [afterCoro, evLate, hf]
+  · intro a r b _ _ _ _
+    unfold finishRun
+    rw [settle_late]
+    cases hf : r.job.data.fail <;> simp [afterCoro, evLate, hf]
+  · intro a r b _ _ _
+    unfold finishRun
+    rw [settle_late]
+    simp [evLate]
+
+theorem expire_late (c : Cfg) (s : State) (d : Nat) : lateJobs (expire c s d).log = lateJobs s.log := by
+  rw [expire_log_eq]
+  simp only [lateJobs, List.filterMap_append]
+  rw [filterMap_expireNew evLate (fun _ => rfl) (fun _ => rfl) rfl]; rfl
+
+/-- a late marker exists only after `stop()`, and its number is not below `nacc` (which is frozen then) -/
+def LateInv (s : State) : Prop := ∀ j ∈ lateJobs s.log, s.stopped = true ∧ s.nacc ≤ j.seq
+
+theorem run_lateInv (c : Cfg) (ops : List Op) : LateInv (run c ops) := by
+  apply run_induction c LateInv
+  · intro j hj; simp [lateJobs] at hj
+  · intro s h j hj; rw [settle_late] at hj; rw [settle_stopped, (settle_put c s).2]; exact h j hj
+  · intro s t h j hj; rw [fire_late] at hj; rw [fire_stopped, (fire_put c s t).2]; exact h j hj
+  · intro s d h _ _ j hj; rw [expire_late] at hj; exact h j hj
+  · intro s t h; exact h
+  · intro s x h hns j hj
+    simp [accept, evLate] at hj
+    have := (h j hj).1; rw [hns] at this; cases this
+  · intro s x h hst j hj
+    simp [evLate] at hj
+    rcases hj with rfl | hj
+    · exact ⟨hst, by simp⟩
+    · exact h j hj
+  · intro s h
+    unfold doStop
+    split
+    · exact h
+    · next hns =>
+      have hnone : ∀ j, j ∉ lateJobs s.log := fun j hj => hns (h j hj).1
+      split
+      · intro j hj; exact absurd hj (hnone j)
+      · split
+        · intro j hj; simp [evLate] at hj; exact absurd hj (hnone j)
+        · intro j hj; simp [accept, evLate] at hj; exact absurd hj (hnone j)
+
+/-- whatever waits to be started, and whatever has been started, has an arrival marker `put` -/
+def StartPut (s : State) : Prop :=
+  (∀ k ∈ s.queue, k ∈ putJobs s.log) ∧ (∀ j, s.sdPending = some j → j ∈ putJobs s.log) ∧
+  (∀ k ∈ startJobs s.log, k ∈ putJobs s.log)
+
+theorem startStopData_startPut (s : State) (h : StartPut s) : StartPut (startStopData s) := by
+  unfold startStopData
+  split
+  · next j hj =>
+    split
+    · obtain ⟨h1, h2, h3⟩ := h
+      refine ⟨by simpa [evPut] using h1, by simp, ?_⟩
+      intro k hk
+      simp [evStart] at hk
+      rcases hk with rfl | hk
+      · simpa [evPut] using h2 _ hj
+      · simpa [evPut] using h3 k hk
+    · exact h
+  · exact h
+
+theorem settle_startPut (c : Cfg) (s : State) (h : StartPut s) : StartPut (settle c s) := by
+  obtain ⟨h1, h2, h3⟩ := h
+  apply settle_cases
+  · exact ⟨h1, h2, h3⟩
+  · intro _ j q _ hq
+    rw [hq] at h1
+    refine ⟨fun k hk => by simpa [evPut] using h1 k (List.mem_cons_of_mem _ hk), by simpa [evPut] using h2, ?_⟩
+    intro k hk
+    simp [evStart] at hk
+    rcases hk with rfl | hk
+    · simpa [evPut] using h1 _ (by simp)
+    · simpa [evPut] using h3 k hk
+  · intro _ j q _ hq
+    rw [hq] at h1
+    refine ⟨by simp, by simpa [evPut, discards_put] using h2, ?_⟩
+    intro k hk
+    simp [evStart, discards_start] at hk
+    rcases hk with rfl | hk
+    · simpa [evPut, discards_put] using h1 _ (lastJob_mem j q)
+    · simpa [evPut, discards_put] using h3 k hk
+  · intro _ j q r rest _ _ _
+    exact ⟨by simpa [cancelCur, evPut] using h1, by simpa [cancelCur, evPut] using h2,
+      by simpa [cancelCur, evPut, evStart] using h3⟩
+  · intro _
+    apply startStopData_startPut
+    refine ⟨by simp, by simpa [startAll_put] using h2, ?_⟩
+    intro k hk
+    rw [startAll_start] at hk
+    rw [startAll_put]
+    rcases List.mem_append.mp hk with hk | hk
+    · exact h1 k (by simpa using hk)
+    · exact h3 k hk
+
+theorem fire_startPut (c : Cfg) (s : State) (t : Nat) (h : StartPut s) : StartPut (fire c s t) := by
+  obtain ⟨h1, h2, h3⟩ := h
+  apply fire_cases
+  · intro _; exact ⟨h1, h2, h3⟩
+  · intro a r b _ _ _ _
+    cases hf : r.job.data.fail <;>
+    · exact ⟨by simpa [afterCoro, evPut, hf] using h1, by simpa [afterCoro, evPut, hf] using h2,
+        by simpa [afterCoro, evPut, evStart, hf] using h3⟩
+  · intro a r b _ _ _ _
+    apply settle_startPut
+    cases hf : r.job.data.fail <;>
+    · exact ⟨by simpa [afterCoro, evPut, hf] using h1, by simpa [afterCoro, evPut, hf] using h2,
+        by simpa [afterCoro, evPut, evStart, hf] using h3⟩
+  · intro a r b _ _ _
+    apply settle_startPut
+    exact ⟨by simpa [evPut] using h1, by simpa [evPut] using h2, by simpa [evPut, evStart] using h3⟩
+
+theorem run_startPut (c : Cfg) (ops : List Op) : StartPut (run c ops) := by
+  apply run_induction c StartPut
+  · exact ⟨by simp, by simp, by simp [startJobs]⟩
+  · exact settle_startPut c
+  · exact fire_startPut c
+  · intro s d ⟨h1, h2, h3⟩ _ _
+    refine ⟨by simpa [putJobs_expire] using h1, by simpa [putJobs_expire] using h2, ?_⟩
+    rw [putJobs_expire, expire_log_eq]
+    simp only [startJobs, List.filterMap_append]
+    rw [filterMap_expireNew evStart (fun _ => rfl) (fun _ => rfl) rfl]
+    exact h3
+  · intro s t h; exact h
+  · intro s x ⟨h1, h2, h3⟩ _
+    refine ⟨?_, by intro j hj; simp [accept, evPut]; exact Or.inr (h2 j hj), ?_⟩
+    · intro k hk
+      simp [accept] at hk
+      simp [accept, evPut]
+      rcases hk with hk | hk
+      · exact Or.inr (h1 k hk)
+      · exact Or.inl hk
+    · intro k hk
+      simp [accept, evStart] at hk
+      simp [accept, evPut]
+      exact Or.inr (h3 k hk)
+  · intro s x ⟨h1, h2, h3⟩ _
+    exact ⟨by simpa [evPut] using h1, by simpa [evPut] using h2, by simpa [evPut, evStart] using h3⟩
+  · intro s ⟨h1, h2, h3⟩
+    unfold doStop
+    split
+    · exact ⟨h1, h2, h3⟩
+    · split
+      · exact ⟨h1, h2, h3⟩
+      · next d _ =>
+        split
+        · refine ⟨fun k hk => by simp [evPut]; exact Or.inr (h1 k hk), by simp [evPut], ?_⟩
+          intro k hk; simp [evStart] at hk; simp [evPut]; exact Or.inr (h3 k hk)
+        · refine ⟨?_, by intro j hj; simp [accept, evPut]; exact Or.inr (h2 j hj), ?_⟩
+          · intro k hk
+            simp [accept] at hk
+            simp [accept, evPut]
+            rcases hk with hk | hk
+            · exact Or.inr (h1 k hk)
+            · exact Or.inl hk
+          · intro k hk
+            simp [accept, evStart] at hk
+            simp [accept, evPut]
+            exact Or.inr (h3 k hk)
 
 end Edzed.OutputAsync
